@@ -273,6 +273,8 @@ static OpRes run_op(Side &sd, const Binding &b, const Bytes &P, const Bytes &S, 
         unsigned char junk = (arg & 1) ? (unsigned char)((src * 37 + i * 11) & 0xfe) : (arg & 2) ? 0x30 : 0;
         vec[i] = (char)(junk | ((src >> (i % 8)) & 1));
       }
+      // programs built against glibc never had to clear the object before setkey_r: sometimes it holds garbage
+      if (sigclass(b.sym) == 11 && (arg & 12) == 12) memset(cd, (arg & 16) ? 0xff : 0xa5, sizeof *cd);
       if (sigclass(b.sym) == 9) ((fn_setkey)f)(vec); else ((fn_setkey_r)f)(vec, cd);
       r.null_ret = false;
       break;
